@@ -876,3 +876,448 @@ Qed.
 
 Lemma is_k_has w n k : is_k w n k = true -> has w n = true.
 Proof. unfold is_k. intro H. apply andb_prop in H. tauto. Qed.
+
+(* ---------- typing guard consequences ---------- *)
+
+Lemma kinds_eqb_eq a : forall b, kinds_eqb a b = true -> a = b.
+Proof.
+  induction a as [|x a IH]; intros [|y b] H; try reflexivity; try discriminate H.
+  unfold kinds_eqb in H. cbn [length Nat.eqb combine forallb fst snd] in H.
+  apply andb_prop in H. destruct H as [H1 H2]. apply andb_prop in H2. destruct H2 as [H2 H3].
+  apply kind_eqb_eq in H2. subst y. f_equal. apply IH. unfold kinds_eqb. rewrite H1. rewrite H3. reflexivity.
+Qed.
+
+Lemma field_ok_parent ko fk k :
+  field_ok ko fk = true -> existsb (kind_eqb k) fk = true -> parent_kind k = Some ko /\ ko <> KIR.
+Proof.
+  intros Hf Hk. destruct ko; cbn [field_ok] in Hf; try discriminate Hf.
+  - apply orb_prop in Hf. destruct Hf as [Hf|Hf]; [apply orb_prop in Hf; destruct Hf as [Hf|Hf]|];
+    apply kinds_eqb_eq in Hf; subst fk; cbn [existsb] in Hk; rewrite orb_false_r in Hk;
+    apply kind_eqb_eq in Hk; subst k; split; try reflexivity; discriminate.
+  - apply kinds_eqb_eq in Hf. subst fk. cbn [existsb] in Hk. rewrite orb_false_r in Hk.
+    apply kind_eqb_eq in Hk. subst k. split; [reflexivity|discriminate].
+  - apply kinds_eqb_eq in Hf. subst fk. cbn [existsb] in Hk. rewrite orb_false_r in Hk.
+    apply orb_prop in Hk. destruct Hk as [Hk|Hk]; apply kind_eqb_eq in Hk; subst k; split; try reflexivity; discriminate.
+Qed.
+
+Lemma member_ok_child w p fk c :
+  field_ok (kindof w p) fk = true -> member_ok w fk c = true ->
+  has w c = true /\ parent_kind (kindof w c) = Some (kindof w p) /\ kindof w p <> KIR.
+Proof.
+  intros Hf Hm. unfold member_ok in Hm. apply andb_prop in Hm. destruct Hm as [Hm1 Hm2].
+  destruct (field_ok_parent _ _ _ Hf Hm2) as [A B]. tauto.
+Qed.
+
+Lemma member_ok_pres w w' fk c : Pres w w' -> member_ok w' fk c = member_ok w fk c.
+Proof. intro H. unfold member_ok. destruct (H c) as [A B]. rewrite A, B. reflexivity. Qed.
+
+(* ---------- the invariant bundle carried through compound methods ---------- *)
+
+Definition Good (known : list id) (w0 w : world) : Prop := Forest w known /\ CacheInv w /\ Pres w0 w.
+
+Lemma good_discard known w0 w p c : Good known w0 w ->
+  Good known w0 (fst (set_discard w p c)) /\ snd (set_discard w p c) = true.
+Proof.
+  intros [Hf [Hc Hp]]. destruct (set_discard_preserves w known p c Hf Hc) as [A [B [C D]]].
+  split; [|exact C]. split; [exact A|]. split; [exact B|]. exact (pres_trans _ _ _ Hp D).
+Qed.
+
+Lemma good_add known w0 w p fk c : Good known w0 w ->
+  has w0 p = true -> field_ok (kindof w0 p) fk = true -> member_ok w0 fk c = true ->
+  Good known w0 (fst (set_add w p c)) /\ snd (set_add w p c) = true.
+Proof.
+  intros [Hf [Hc Hp]] Hhp Hfk Hm.
+  destruct (Hp p) as [Hhp' Hkp']. rewrite <- Hhp' in Hhp. rewrite <- Hkp' in Hfk.
+  rewrite <- (member_ok_pres w0 w fk c Hp) in Hm.
+  destruct (member_ok_child w p fk c Hfk Hm) as [Hhc [Hpk Hpi]].
+  destruct (set_add_ok w known p c Hf Hc Hhp Hhc Hpk Hpi) as [A [B [C [D _]]]].
+  split; [|exact C]. split; [exact A|]. split; [exact B|]. exact (pres_trans _ _ _ Hp D).
+Qed.
+
+Lemma fold_ok_acc (f : world -> id -> world * bool) l : forall w ok,
+  fold_left (fun (st : world * bool) v => let '(w, ok) := st in let '(w', ok') := f w v in (w', ok && ok')) l (w, ok) =
+  (fst (fold_ok f l w), ok && snd (fold_ok f l w)).
+Proof.
+  unfold fold_ok. induction l as [|v l IH]; intros w ok; cbn [fold_left].
+  - cbn [fst snd]. rewrite andb_true_r. reflexivity.
+  - destruct (f w v) as [w' ok'] eqn:E. rewrite (IH w' (ok && ok')). rewrite (IH w' (true && ok')).
+    cbn [fst snd]. rewrite andb_assoc. reflexivity.
+Qed.
+
+Lemma fold_ok_cons f v l w :
+  fold_ok f (v :: l) w = (fst (fold_ok f l (fst (f w v))), snd (f w v) && snd (fold_ok f l (fst (f w v)))).
+Proof.
+  unfold fold_ok at 1. cbn [fold_left]. destruct (f w v) as [w' ok'] eqn:E. rewrite fold_ok_acc. reflexivity.
+Qed.
+
+Lemma fold_ok_nil f w : fold_ok f [] w = (w, true).
+Proof. reflexivity. Qed.
+
+Lemma fold_ok_inv (P : world -> Prop) f l :
+  (forall w v, P w -> In v l -> P (fst (f w v)) /\ snd (f w v) = true) ->
+  forall w, P w -> P (fst (fold_ok f l w)) /\ snd (fold_ok f l w) = true.
+Proof.
+  induction l as [|v l IH]; intros Hstep w Hw.
+  - rewrite fold_ok_nil. split; [exact Hw|reflexivity].
+  - rewrite fold_ok_cons. cbn [fst snd]. destruct (Hstep w v Hw (or_introl eq_refl)) as [A B].
+    destruct (IH (fun w' v' Hw' Hv' => Hstep w' v' Hw' (or_intror Hv')) _ A) as [C D].
+    split; [exact C|]. rewrite B, D. reflexivity.
+Qed.
+
+Lemma flagged_true r : snd r = true -> flagged r = Ok (fst r).
+Proof. destruct r as [w b]. cbn [fst snd]. intro E. subst b. reflexivity. Qed.
+
+Lemma good_refl known w : Forest w known -> CacheInv w -> Good known w w.
+Proof. intros Hf Hc. split; [exact Hf|]. split; [exact Hc|apply pres_refl]. Qed.
+
+Lemma forallb_concat {A} (f : A -> bool) (ll : list (list A)) :
+  forallb (forallb f) ll = true -> forall x, In x (concat ll) -> f x = true.
+Proof.
+  intros H x Hx. apply in_concat in Hx. destruct Hx as [l [Hl Hx]].
+  rewrite forallb_forall in H. specialize (H l Hl). rewrite forallb_forall in H. apply H. exact Hx.
+Qed.
+
+Lemma member_ok_block w c : member_ok w [KCode; KData] c = true -> has w c = true /\ is_block (kindof w c) = true.
+Proof.
+  unfold member_ok. intro H. apply andb_prop in H. destruct H as [A B]. split; [exact A|].
+  cbn [existsb] in B. rewrite orb_false_r in B. destruct (kindof w c); cbn [kind_eqb orb] in B; try discriminate B; reflexivity.
+Qed.
+
+(* ---------- OSet ---------- *)
+
+Lemma oset_guard w known p fk m args : op_okb w known (OSet p fk m args) = true ->
+  has w p = true /\ field_ok (kindof w p) fk = true /\ forallb (forallb (member_ok w fk)) args = true /\
+  match m with
+  | SAdd | SDiscard | SRemove => match args with [[_]] => true | _ => false end
+  | SPop => match args with [] | [[]] | [[_]] => true | _ => false end
+  | SClear => true
+  | SUpdate => true
+  | SIor | SIand | SIsub | SIxor => match args with [_] => true | _ => false end
+  end = true.
+Proof.
+  cbn [op_okb]. intro H. apply andb_prop in H. destruct H as [H H4]. apply andb_prop in H. destruct H as [H H3].
+  apply andb_prop in H. destruct H as [H1 H2]. tauto.
+Qed.
+
+Lemma good_fold_discard known w0 p l : forall w, Good known w0 w ->
+  Good known w0 (fst (fold_ok (fun w c => set_discard w p c) l w)) /\
+  snd (fold_ok (fun w c => set_discard w p c) l w) = true.
+Proof.
+  apply (fold_ok_inv (Good known w0) (fun w c => set_discard w p c) l).
+  intros w v Hw _. apply good_discard. exact Hw.
+Qed.
+
+Lemma good_fold_add known w0 p fk l :
+  has w0 p = true -> field_ok (kindof w0 p) fk = true -> (forall c, In c l -> member_ok w0 fk c = true) ->
+  forall w, Good known w0 w ->
+  Good known w0 (fst (fold_ok (fun w c => set_add w p c) l w)) /\
+  snd (fold_ok (fun w c => set_add w p c) l w) = true.
+Proof.
+  intros Hhp Hfk Hl. apply (fold_ok_inv (Good known w0) (fun w c => set_add w p c) l).
+  intros w v Hw Hv. apply (good_add known w0 w p fk v Hw Hhp Hfk). apply Hl. exact Hv.
+Qed.
+
+Lemma good_fold_xor known w0 p fk l :
+  has w0 p = true -> field_ok (kindof w0 p) fk = true -> (forall c, In c l -> member_ok w0 fk c = true) ->
+  forall w, Good known w0 w ->
+  Good known w0 (fst (fold_ok (fun w c => if mem c (field w p fk) then set_discard w p c else set_add w p c) l w)) /\
+  snd (fold_ok (fun w c => if mem c (field w p fk) then set_discard w p c else set_add w p c) l w) = true.
+Proof.
+  intros Hhp Hfk Hl.
+  apply (fold_ok_inv (Good known w0) (fun w c => if mem c (field w p fk) then set_discard w p c else set_add w p c) l).
+  intros w v Hw Hv. destruct (mem v (field w p fk)).
+  - apply good_discard. exact Hw.
+  - apply (good_add known w0 w p fk v Hw Hhp Hfk). apply Hl. exact Hv.
+Qed.
+
+Lemma good_blocks known w p fk items :
+  Forest w known -> CacheInv w -> has w p = true -> kindof w p = KBI -> field_ok (kindof w p) fk = true ->
+  (forall c, In c items -> member_ok w fk c = true) ->
+  Good known w (fst (blocks_update w p items)) /\ snd (blocks_update w p items) = true.
+Proof.
+  intros Hf Hc Hhp Hk Hfk Hl. rewrite Hk in Hfk. cbn [field_ok] in Hfk. apply kinds_eqb_eq in Hfk. subst fk.
+  destruct (blocks_update_ok w known p items Hf Hc Hhp Hk) as [A [B [C [D _]]]].
+  { intros v Hv. apply member_ok_block. apply Hl. exact Hv. }
+  split; [|exact C]. split; [exact A|]. split; [exact B|exact D].
+Qed.
+
+Ltac finish_flag H Hg :=
+  rewrite (flagged_true _ (proj2 Hg)) in H; injection H as H; subst; exact (proj1 Hg).
+
+Lemma do_set_good w known p fk m args w' :
+  Forest w known -> CacheInv w -> op_okb w known (OSet p fk m args) = true ->
+  do_set w p fk m args = Ok w' -> Good known w w'.
+Proof.
+  intros Hf Hc Hg H. destruct (oset_guard _ _ _ _ _ _ Hg) as [Hhp [Hfk [Hargs Hshape]]].
+  pose proof (good_refl known w Hf Hc) as Hg0.
+  assert (Hall : forall c, In c (concat args) -> member_ok w fk c = true) by (apply forallb_concat; exact Hargs).
+  unfold do_set in H. destruct m.
+  - (* SAdd *)
+    destruct args as [|[|c [|c2 l]] [|l2 ll]]; try discriminate Hshape.
+    pose proof (good_add known w w p fk c Hg0 Hhp Hfk (Hall c (or_introl eq_refl))) as Hr. finish_flag H Hr.
+  - (* SDiscard *)
+    destruct args as [|[|c [|c2 l]] [|l2 ll]]; try discriminate Hshape.
+    pose proof (good_discard known w w p c Hg0) as Hr. finish_flag H Hr.
+  - (* SRemove *)
+    destruct args as [|[|c [|c2 l]] [|l2 ll]]; try discriminate Hshape.
+    destruct (mem c (field w p fk)); [|discriminate H].
+    pose proof (good_discard known w w p c Hg0) as Hr. finish_flag H Hr.
+  - (* SPop *)
+    destruct (field w p fk) as [|y cur] eqn:Ecur; [discriminate H|].
+    destruct args as [|[|c [|c2 l]] ll]; try discriminate H.
+    destruct (mem c (y :: cur)); [|discriminate H].
+    pose proof (good_discard known w w p c Hg0) as Hr. finish_flag H Hr.
+  - (* SClear *)
+    pose proof (good_fold_discard known w p (field w p fk) w Hg0) as Hr. finish_flag H Hr.
+  - (* SUpdate *)
+    destruct (kind_eq_dec (kindof w p) KBI) as [E|E].
+    + rewrite E in H. pose proof (good_blocks known w p fk (concat args) Hf Hc Hhp E Hfk Hall) as Hr. finish_flag H Hr.
+    + pose proof (good_fold_add known w p fk (concat args) Hhp Hfk Hall w Hg0) as Hr.
+      destruct (kindof w p); try (finish_flag H Hr). contradiction.
+  - (* SIor *)
+    destruct args as [|a [|l2 ll]]; try discriminate Hshape.
+    assert (Ha : forall c, In c a -> member_ok w fk c = true).
+    { intros c Hc'. apply Hall. cbn [concat]. rewrite app_nil_r. exact Hc'. }
+    pose proof (good_fold_add known w p fk a Hhp Hfk Ha w Hg0) as Hr. finish_flag H Hr.
+  - (* SIand *)
+    destruct args as [|a [|l2 ll]]; try discriminate Hshape.
+    pose proof (good_fold_discard known w p (filter (fun c => negb (mem c a)) (field w p fk)) w Hg0) as Hr.
+    finish_flag H Hr.
+  - (* SIsub *)
+    destruct args as [|a [|l2 ll]]; try discriminate Hshape.
+    pose proof (good_fold_discard known w p a w Hg0) as Hr. finish_flag H Hr.
+  - (* SIxor *)
+    destruct args as [|a [|l2 ll]]; try discriminate Hshape.
+    assert (Ha : forall c, In c (dedup a) -> member_ok w fk c = true).
+    { intros c Hc'. apply Hall. cbn [concat]. rewrite app_nil_r. apply dedup_In. exact Hc'. }
+    pose proof (good_fold_xor known w p fk (dedup a) Hhp Hfk Ha w Hg0) as Hr. finish_flag H Hr.
+Qed.
+
+(* ---------- OSetParent (non-module child) ---------- *)
+
+Lemma do_setparent_eq w c p : kindof w c <> KMod -> kindof w c <> KIR ->
+  do_setparent w c p =
+  (do w1 <- match par w c with Some old => flagged (set_discard w old c) | None => Ok w end;
+   match p with Some q => flagged (set_add w1 q c) | None => Ok w1 end).
+Proof. intros H1 H2. unfold do_setparent. destruct (kindof w c); try reflexivity; contradiction. Qed.
+
+Lemma do_setparent_good w known c p w' :
+  Forest w known -> CacheInv w -> op_okb w known (OSetParent c p) = true -> kindof w c <> KMod ->
+  do_setparent w c p = Ok w' -> Good known w w'.
+Proof.
+  intros Hf Hc Hg Hnm H. cbn [op_okb] in Hg. apply andb_prop in Hg. destruct Hg as [Hg Hq].
+  apply andb_prop in Hg. destruct Hg as [Hhc Hni].
+  assert (kindof w c <> KIR) as Hnir.
+  { intro E. rewrite E in Hni. discriminate Hni. }
+  rewrite (do_setparent_eq w c p Hnm Hnir) in H.
+  pose proof (good_refl known w Hf Hc) as Hg0.
+  assert (exists w1, match par w c with Some old => flagged (set_discard w old c) | None => Ok w end = Ok w1 /\ Good known w w1)
+    as [w1 [E1 Hg1]].
+  { destruct (par w c) as [old|].
+    - pose proof (good_discard known w w old c Hg0) as Hr. exists (fst (set_discard w old c)).
+      split; [apply flagged_true; apply Hr|apply Hr].
+    - exists w. split; [reflexivity|exact Hg0]. }
+  rewrite E1 in H. cbn [bind] in H. destruct p as [q|].
+  - apply andb_prop in Hq. destruct Hq as [Hhq Hkq].
+    destruct (parent_kind (kindof w c)) as [k|] eqn:Epk; [|discriminate Hkq]. apply kind_eqb_eq in Hkq.
+    destruct Hg1 as [Hf1 [Hc1 Hp1]].
+    destruct (Hp1 c) as [Hhc1 Hkc1]. destruct (Hp1 q) as [Hhq1 Hkq1].
+    assert (kindof w q <> KIR) as Hqi.
+    { intro E. rewrite E in Hkq. subst k. destruct (kindof w c); cbn [parent_kind] in Epk; try discriminate Epk. apply Hnm. reflexivity. }
+    destruct (set_add_ok w1 known q c Hf1 Hc1) as [A [B [C [D _]]]].
+    + rewrite Hhq1. exact Hhq.
+    + rewrite Hhc1. exact Hhc.
+    + rewrite Hkc1, Hkq1. rewrite Epk. rewrite Hkq. reflexivity.
+    + rewrite Hkq1. exact Hqi.
+    + rewrite (flagged_true _ C) in H. injection H as H. subst w'.
+      split; [exact A|]. split; [exact B|]. exact (pres_trans _ _ _ Hp1 D).
+  - injection H as H. subst w'. exact Hg1.
+Qed.
+
+(* ---------- the main theorem ---------- *)
+
+Definition F1 (w : world) (o : op) : Prop :=
+  match o with
+  | OSet _ _ _ _ | OAttrAddr _ _ | OAttrSize _ _ | OAttrOff _ _ | OAttrName _ _ | OAttrPay _ _
+  | OSymxSet _ _ _ | OSymxDel _ _ | OSymxPop _ _ | OSymxPopitem _ | OSymxSetdefault _ _ _
+  | OSymxUpdate _ _ | OSymxClear _ | OSymxAssign _ _ | OTouch _ => True
+  | OSetParent c _ => kindof w c <> KMod
+  | _ => False
+  end.
+
+Lemma skel_both w w' known : SameSkel w w' -> Forest w known -> CacheInv w -> Forest w' known /\ CacheInv w'.
+Proof. intros Hs Hf Hc. split; [exact (skel_forest _ _ _ Hs Hf)|exact (skel_cache _ _ Hs Hc)]. Qed.
+
+Theorem f1_preserves : forall w known o,
+  Forest w known -> CacheInv w -> op_okb w known o = true -> F1 w o ->
+  Forest (step' w o) known /\ CacheInv (step' w o).
+Proof.
+  intros w known o Hf Hc Hg HF. unfold step'. destruct o; cbn [F1] in HF; try contradiction; cbn [step].
+  - (* OSetParent *)
+    destruct (do_setparent w c p) as [w'|e] eqn:E; [|tauto].
+    destruct (do_setparent_good w known c p w' Hf Hc Hg HF E) as [A [B _]]. tauto.
+  - (* OSet *)
+    destruct (do_set w p fk m args) as [w'|e] eqn:E; [|tauto].
+    destruct (do_set_good w known p fk m args w' Hf Hc Hg E) as [A [B _]]. tauto.
+  - (* OAttrAddr *)
+    cbn [op_okb] in Hg. apply (skel_both w _ known (bi_attr_skel w bi _ (keeps_addr a) (is_k_has _ _ _ Hg)) Hf Hc).
+  - (* OAttrSize *)
+    cbn [op_okb] in Hg. apply andb_prop in Hg. destruct Hg as [Hg _]. apply andb_prop in Hg. destruct Hg as [Hh _].
+    destruct (kindof w n);
+      try (apply (skel_both w _ known (block_attr_skel w n _ (keeps_size s) Hh) Hf Hc)).
+    apply (skel_both w _ known (bi_attr_skel w n _ (keeps_size s) Hh) Hf Hc).
+  - (* OAttrOff *)
+    cbn [op_okb] in Hg. apply andb_prop in Hg. destruct Hg as [Hg _]. apply andb_prop in Hg. destruct Hg as [Hh _].
+    apply (skel_both w _ known (block_attr_skel w b _ (keeps_off o) Hh) Hf Hc).
+  - (* OAttrName *)
+    cbn [op_okb] in Hg. apply (skel_both w _ known (sym_attr_skel w s _ (keeps_name nm) (is_k_has _ _ _ Hg)) Hf Hc).
+  - (* OAttrPay *)
+    cbn [op_okb] in Hg. apply andb_prop in Hg. destruct Hg as [Hg _].
+    apply (skel_both w _ known (sym_attr_skel w s _ (keeps_pay p) (is_k_has _ _ _ Hg)) Hf Hc).
+  - (* OSymxSet *) apply (skel_both w _ known (symx_upd_skel w bi _) Hf Hc).
+  - (* OSymxDel *)
+    destruct (dict_has Z.eqb k (symx w bi)); [|tauto]. apply (skel_both w _ known (symx_upd_skel w bi _) Hf Hc).
+  - (* OSymxPop *)
+    destruct (dict_has Z.eqb k (symx w bi)); [|tauto]. apply (skel_both w _ known (symx_upd_skel w bi _) Hf Hc).
+  - (* OSymxPopitem *)
+    destruct (symx w bi) as [|kv d]; [tauto|]. apply (skel_both w _ known (symx_upd_skel w bi _) Hf Hc).
+  - (* OSymxSetdefault *)
+    destruct (dict_has Z.eqb k (symx w bi)); [tauto|]. apply (skel_both w _ known (symx_upd_skel w bi _) Hf Hc).
+  - (* OSymxUpdate *) apply (skel_both w _ known (symx_upd_skel w bi _) Hf Hc).
+  - (* OSymxClear *) apply (skel_both w _ known (symx_upd_skel w bi _) Hf Hc).
+  - (* OSymxAssign *) apply (skel_both w _ known (symx_upd_skel w bi _) Hf Hc).
+  - (* OTouch *) apply (skel_both w _ known (force_skel w n) Hf Hc).
+Qed.
+
+(* ---------- effects of the compound methods (membership level) ---------- *)
+
+Lemma fold_ok_ind (Q : list id -> world -> Prop) f l :
+  (forall pre v suf w, l = pre ++ v :: suf -> Q pre w -> Q (pre ++ [v]) (fst (f w v)) /\ snd (f w v) = true) ->
+  forall w, Q [] w -> Q l (fst (fold_ok f l w)) /\ snd (fold_ok f l w) = true.
+Proof.
+  intro Hstep.
+  assert (G : forall suf pre w, l = pre ++ suf -> Q pre w ->
+              Q (pre ++ suf) (fst (fold_ok f suf w)) /\ snd (fold_ok f suf w) = true).
+  { induction suf as [|v suf IH]; intros pre w El Hq.
+    - rewrite fold_ok_nil. rewrite app_nil_r. split; [exact Hq|reflexivity].
+    - rewrite fold_ok_cons. cbn [fst snd]. destruct (Hstep pre v suf w El Hq) as [A B].
+      assert (l = (pre ++ [v]) ++ suf) as El' by (rewrite <- app_assoc; exact El).
+      destruct (IH (pre ++ [v]) _ El' A) as [C D]. rewrite <- app_assoc in C. cbn [app] in C.
+      split; [exact C|]. rewrite B, D. reflexivity. }
+  intros w Hq. exact (G l [] w eq_refl Hq).
+Qed.
+
+Definition inF (w : world) (fk : list kind) (x : id) : Prop := existsb (kind_eqb (kindof w x)) fk = true.
+
+Lemma field_In w p fk x : In x (field w p fk) <-> In x (kids w p) /\ inF w fk x.
+Proof. unfold field, inF. apply filter_In. Qed.
+
+Lemma field_In_pres w w' p fk x : Pres w w' -> (In x (field w' p fk) <-> In x (kids w' p) /\ inF w fk x).
+Proof. intro Hp. rewrite field_In. unfold inF. destruct (Hp x) as [_ A]. rewrite A. tauto. Qed.
+
+Lemma member_ok_inF w fk c : member_ok w fk c = true -> inF w fk c.
+Proof. unfold member_ok, inF. intro H. apply andb_prop in H. tauto. Qed.
+
+Lemma good_kind_p known w0 w p fk : Good known w0 w -> field_ok (kindof w0 p) fk = true -> kindof w p <> KIR.
+Proof.
+  intros [_ [_ Hp]] Hfk. destruct (Hp p) as [_ A]. rewrite A. intro E. rewrite E in Hfk. discriminate Hfk.
+Qed.
+
+(* folding discard over l removes exactly the elements of l *)
+Lemma fold_discard_kids known w0 p fk l :
+  Forest w0 known -> CacheInv w0 -> field_ok (kindof w0 p) fk = true ->
+  Good known w0 (fst (fold_ok (fun w c => set_discard w p c) l w0)) /\
+  snd (fold_ok (fun w c => set_discard w p c) l w0) = true /\
+  forall x, In x (kids (fst (fold_ok (fun w c => set_discard w p c) l w0)) p) <-> In x (kids w0 p) /\ ~ In x l.
+Proof.
+  intros Hf Hc Hfk.
+  pose (Q := fun (pre : list id) (w : world) =>
+               Good known w0 w /\ forall x, In x (kids w p) <-> In x (kids w0 p) /\ ~ In x pre).
+  destruct (fold_ok_ind Q (fun w c => set_discard w p c) l) with (w := w0) as [[A B] C].
+  - intros pre v suf w _ [Hg Hk]. destruct (good_discard known w0 w p v Hg) as [Hg' Hfl].
+    split; [|exact Hfl]. split; [exact Hg'|]. intro x. destruct Hg as [Hfw [Hcw Hpw]].
+    rewrite (set_discard_kids w known p v Hfw Hcw (good_kind_p known w0 w p fk (conj Hfw (conj Hcw Hpw)) Hfk) p).
+    rewrite Z.eqb_refl. rewrite remove_id_In. rewrite Hk. rewrite in_app_iff. cbn [In]. split.
+    + intros [[H1 H2] H3]. split; [exact H1|]. intros [H4|[H4|[]]]; [exact (H2 H4)|congruence].
+    + intros [H1 H2]. split; [split; [exact H1|]|]; intro H3; apply H2; [left; exact H3|right; left; congruence].
+  - split; [apply good_refl; assumption|]. intro x. cbn [In]. tauto.
+  - split; [exact A|]. split; [exact C|exact B].
+Qed.
+
+(* folding add over l adds exactly the elements of l *)
+Lemma fold_add_kids known w0 p fk l :
+  Forest w0 known -> CacheInv w0 -> has w0 p = true -> field_ok (kindof w0 p) fk = true ->
+  (forall c, In c l -> member_ok w0 fk c = true) ->
+  Good known w0 (fst (fold_ok (fun w c => set_add w p c) l w0)) /\
+  snd (fold_ok (fun w c => set_add w p c) l w0) = true /\
+  forall x, In x (kids (fst (fold_ok (fun w c => set_add w p c) l w0)) p) <-> In x (kids w0 p) \/ In x l.
+Proof.
+  intros Hf Hc Hhp Hfk Hl.
+  pose (Q := fun (pre : list id) (w : world) =>
+               Good known w0 w /\ forall x, In x (kids w p) <-> In x (kids w0 p) \/ In x pre).
+  destruct (fold_ok_ind Q (fun w c => set_add w p c) l) with (w := w0) as [[A B] C].
+  - intros pre v suf w El [Hg Hk].
+    assert (member_ok w0 fk v = true) as Hmv. { apply Hl. rewrite El. apply in_app_iff. right. left. reflexivity. }
+    destruct (good_add known w0 w p fk v Hg Hhp Hfk Hmv) as [Hg' Hfl].
+    split; [|exact Hfl]. split; [exact Hg'|]. intro x. destruct Hg as [Hfw [Hcw Hpw]].
+    destruct (Hpw p) as [Hhp' Hkp']. pose proof Hfk as Hfk'. rewrite <- Hkp' in Hfk'.
+    pose proof Hmv as Hmv'. rewrite <- (member_ok_pres w0 w fk v Hpw) in Hmv'.
+    destruct (member_ok_child w p fk v Hfk' Hmv') as [Hhv [Hpk Hpi]].
+    rewrite (set_add_members w known p v Hfw Hcw (eq_trans Hhp' Hhp) Hhv Hpk Hpi x).
+    rewrite Hk. rewrite in_app_iff. cbn [In]. split.
+    + intros [[H1|H1]|H1]; [left; exact H1|right; left; exact H1|right; right; left; congruence].
+    + intros [H1|[H1|[H1|[]]]]; [left; left; exact H1|left; right; exact H1|right; congruence].
+  - split; [apply good_refl; assumption|]. intro x. cbn [In]. tauto.
+  - split; [exact A|]. split; [exact C|exact B].
+Qed.
+
+Lemma in_snoc_ne (x v : id) pre : x <> v -> (In x (pre ++ [v]) <-> In x pre).
+Proof. intro H. rewrite in_app_iff. cbn [In]. split; [intros [A|[A|[]]]; [exact A|congruence]|tauto]. Qed.
+
+Lemma in_snoc_eq (v : id) pre : In v (pre ++ [v]).
+Proof. apply in_app_iff. right. left. reflexivity. Qed.
+
+(* folding the symmetric-difference step over a duplicate-free l *)
+Lemma fold_xor_kids known w0 p fk l :
+  Forest w0 known -> CacheInv w0 -> has w0 p = true -> field_ok (kindof w0 p) fk = true -> NoDup l ->
+  (forall c, In c l -> member_ok w0 fk c = true) ->
+  Good known w0 (fst (fold_ok (fun w c => if mem c (field w p fk) then set_discard w p c else set_add w p c) l w0)) /\
+  snd (fold_ok (fun w c => if mem c (field w p fk) then set_discard w p c else set_add w p c) l w0) = true /\
+  forall x, In x (kids (fst (fold_ok (fun w c => if mem c (field w p fk) then set_discard w p c else set_add w p c) l w0)) p)
+            <-> (In x (kids w0 p) /\ ~ In x l) \/ (~ In x (kids w0 p) /\ In x l).
+Proof.
+  intros Hf Hc Hhp Hfk Hnd Hl.
+  pose (Q := fun (pre : list id) (w : world) =>
+               Good known w0 w /\
+               forall x, In x (kids w p) <-> (In x (kids w0 p) /\ ~ In x pre) \/ (~ In x (kids w0 p) /\ In x pre)).
+  destruct (fold_ok_ind Q (fun w c => if mem c (field w p fk) then set_discard w p c else set_add w p c) l)
+    with (w := w0) as [[A B] C].
+  - intros pre v suf w El [Hg Hk].
+    assert (member_ok w0 fk v = true) as Hmv. { apply Hl. rewrite El. apply in_app_iff. right. left. reflexivity. }
+    assert (~ In v pre) as Hvp.
+    { rewrite El in Hnd. apply NoDup_remove_2 in Hnd. intro H. apply Hnd. apply in_app_iff. left. exact H. }
+    pose proof Hg as [Hfw [Hcw Hpw]].
+    assert (inF w fk v) as HinF.
+    { unfold inF. destruct (Hpw v) as [_ E]. rewrite E. apply (member_ok_inF w0 fk v Hmv). }
+    destruct (mem v (field w p fk)) eqn:Em.
+    + destruct (good_discard known w0 w p v Hg) as [Hg' Hfl]. split; [|exact Hfl]. split; [exact Hg'|].
+      apply mem_In in Em. apply field_In in Em. destruct Em as [Em _]. apply Hk in Em.
+      assert (In v (kids w0 p)) as Hv0 by tauto.
+      intro x. rewrite (set_discard_kids w known p v Hfw Hcw (good_kind_p known w0 w p fk Hg Hfk) p).
+      rewrite Z.eqb_refl. rewrite remove_id_In. rewrite Hk. destruct (Z.eq_dec x v) as [E|E].
+      * subst x. pose proof (in_snoc_eq v pre). tauto.
+      * rewrite (in_snoc_ne x v pre E). tauto.
+    + destruct (good_add known w0 w p fk v Hg Hhp Hfk Hmv) as [Hg' Hfl]. split; [|exact Hfl]. split; [exact Hg'|].
+      assert (~ In v (kids w p)) as Hnv.
+      { intro H. apply mem_false in Em. apply Em. apply field_In. split; [exact H|exact HinF]. }
+      assert (~ In v (kids w0 p)) as Hv0. { intro H. apply Hnv. apply Hk. left. split; [exact H|exact Hvp]. }
+      destruct (Hpw p) as [Hhp' Hkp']. pose proof Hfk as Hfk'. rewrite <- Hkp' in Hfk'.
+      pose proof Hmv as Hmv'. rewrite <- (member_ok_pres w0 w fk v Hpw) in Hmv'.
+      destruct (member_ok_child w p fk v Hfk' Hmv') as [Hhv [Hpk Hpi]].
+      intro x. rewrite (set_add_members w known p v Hfw Hcw (eq_trans Hhp' Hhp) Hhv Hpk Hpi x).
+      rewrite Hk. destruct (Z.eq_dec x v) as [E|E].
+      * subst x. pose proof (in_snoc_eq v pre). tauto.
+      * rewrite (in_snoc_ne x v pre E). tauto.
+  - split; [apply good_refl; assumption|]. intro x. cbn [In]. tauto.
+  - split; [exact A|]. split; [exact C|exact B].
+Qed.
